@@ -293,6 +293,9 @@ type Exec struct {
 	uniMemo   map[*Term]*uniInfo
 	DomDecided int
 
+	syncMaps     map[*Val]*MapV
+	sharedWrites []string
+
 	needModelAfterPrefix bool
 	lockMonitorOn        bool
 	trackedObjs          []*tracked
